@@ -404,9 +404,24 @@ def op_swap_offsets(img, rng, limit):
     return f"swap_offsets level={lv} boxes={a},{b}"
 
 
+def op_dup_offset(img, rng, limit):
+    """a box records the offset of ANOTHER box of the same file (two boxes
+    then share one recorded offset)"""
+    lv, d, lay = _cellh(img, rng, limit)
+    byfile = {}
+    for i in range(lay['n']):
+        byfile.setdefault(d['cellh'][lay['fod'][i]][1], []).append(i)
+    cands = [v for v in byfile.values() if len(v) >= 2]
+    if not cands:
+        return None
+    a, b = rng.sample(rng.choice(cands), 2)
+    d['cellh'][lay['fod'][b]][2] = d['cellh'][lay['fod'][a]][2]
+    return f"dup_offset level={lv} box {b} records the offset of box {a}"
+
+
 C04_OPS = [op_delete_file, op_truncate, op_truncate, op_extend, op_insert, op_remove, op_alter_shape, op_alter_ncomp,
            op_shift_fab_indices, op_shift_cellh_indices, op_drop_index_line, op_drop_fab_line, op_garble_entry,
-           op_bad_file_name, op_bad_offset, op_alter_cellh_ncomp, op_swap_offsets]
+           op_bad_file_name, op_bad_offset, op_alter_cellh_ncomp, op_swap_offsets, op_dup_offset, op_dup_offset]
 C20_OPS = [op_nudge_offset, op_nudge_offset, op_edit_fab_text, op_header_whitespace]
 
 
